@@ -821,21 +821,30 @@ func (bc *BlockChain) WriteBlockWithState(block *types.Block, state *state.State
 		rawdb.WriteReceipts(batch, block.Hash(), block.NumberU64(), receipts)
 	}
 
+	// The switch of the canonical index - the canonical hashes and transaction lookups of a reorganised
+	// chain, the lookups of the new block, its canonical hash and both head markers - reaches the disk as
+	// ONE atomic batch: a crash leaves either the old or the new consistent chain, never a mix of both.
+	var rebuilt types.Blocks
 	if block.ParentHash() != bc.CurrentBlock().Hash() {
 		// Reorganise the chain if the parent is not the head block
-		if err := bc.reorg(bc.CurrentBlock(), block); err != nil {
+		var err error
+		if rebuilt, err = bc.reorg(bc.CurrentBlock(), block, batch); err != nil {
 			logging.Info("WriteBlockWithState: reorg failed:", "err", err, "number", block.NumberU64(), "hash", block.Hash().String(), "parentHash", block.ParentHash().String())
 			return err
 		}
 	}
 
 	rawdb.WriteTxLookupEntries(batch, block)
+	writeHeadMarkers(batch, block)
 	if err := batch.Write(); err != nil {
 		return err
 	}
 
-	// Set new head.
-	bc.insert(block)
+	// Set new head (in memory; the markers are on disk already).
+	for _, b := range rebuilt {
+		bc.setHead(b)
+	}
+	bc.setHead(block)
 
 	bc.futureBlocks.Remove(block.Hash())
 
@@ -845,10 +854,15 @@ func (bc *BlockChain) WriteBlockWithState(block *types.Block, state *state.State
 // reorgs takes two blocks, an old chain and a new chain and will reconstruct the blocks and inserts them
 // to be part of the new canonical chain and accumulates potential missing transactions and post an
 // event about them
-func (bc *BlockChain) reorg(oldBlock, newBlock *types.Block) error {
+//
+// All index writes (canonical hashes, head markers, transaction lookups and their deletions) are staged
+// into the caller's batch; the blocks of the new chain are returned oldest first so that the caller can
+// move the in-memory head once the batch is on disk.
+func (bc *BlockChain) reorg(oldBlock, newBlock *types.Block, batch youdb.Batch) (types.Blocks, error) {
 	var (
 		oldChain    types.Blocks
 		newChain    types.Blocks
+		rebuilt     types.Blocks
 		commonBlock *types.Block
 
 		deletedTxs types.Transactions
@@ -891,10 +905,10 @@ func (bc *BlockChain) reorg(oldBlock, newBlock *types.Block) error {
 	}
 
 	if oldBlock == nil {
-		return fmt.Errorf("Invalid old chain")
+		return nil, fmt.Errorf("Invalid old chain")
 	}
 	if newBlock == nil {
-		return fmt.Errorf("Invalid new chain")
+		return nil, fmt.Errorf("Invalid new chain")
 	}
 
 	// find common ancestor
@@ -911,11 +925,11 @@ func (bc *BlockChain) reorg(oldBlock, newBlock *types.Block) error {
 
 		oldBlock = bc.GetBlock(oldBlock.ParentHash(), oldBlock.NumberU64()-1)
 		if oldBlock == nil {
-			return fmt.Errorf("Invalid old chain")
+			return nil, fmt.Errorf("Invalid old chain")
 		}
 		newBlock = bc.GetBlock(newBlock.ParentHash(), newBlock.NumberU64()-1)
 		if newBlock == nil {
-			return fmt.Errorf("Invalid new chain")
+			return nil, fmt.Errorf("Invalid new chain")
 		}
 	}
 
@@ -933,24 +947,23 @@ func (bc *BlockChain) reorg(oldBlock, newBlock *types.Block) error {
 
 	for i := len(newChain) - 1; i >= 0; i-- {
 		// insert the block in the canonical way, re-writing history
-		bc.insert(newChain[i])
+		writeHeadMarkers(batch, newChain[i])
+		rebuilt = append(rebuilt, newChain[i])
 
 		// Collect reborn logs due to chain reorg
 		collectLogs(newChain[i].Hash(), false)
 
 		// write lookup entries for hash based transaction/receipt searches
-		rawdb.WriteTxLookupEntries(bc.db, newChain[i])
+		rawdb.WriteTxLookupEntries(batch, newChain[i])
 		addedTxs = append(addedTxs, newChain[i].Transactions()...)
 	}
 	// calculate the difference between deleted and added transactions
 	diff := types.TxDifference(deletedTxs, addedTxs)
 	// When transactions get deleted from the database that means the
 	// receipts that were created in the fork must also be deleted
-	batch := bc.db.NewBatch()
 	for _, tx := range diff {
 		rawdb.DeleteTxLookupEntry(batch, tx.Hash())
 	}
-	batch.Write()
 
 	go func() {
 		if len(deletedLogs) > 0 {
@@ -960,7 +973,7 @@ func (bc *BlockChain) reorg(oldBlock, newBlock *types.Block) error {
 			bc.logsFeed.Send(rebirthLogs)
 		}
 	}()
-	return nil
+	return rebuilt, nil
 }
 
 // insert injects a new head block into the current block chain. This method
@@ -971,8 +984,29 @@ func (bc *BlockChain) reorg(oldBlock, newBlock *types.Block) error {
 // Note, this function assumes that the `mu` mutex is held!
 func (bc *BlockChain) insert(block *types.Block) {
 	// Add the block to the canonical chain number scheme and mark as the head
-	bc.hc.SetCurrentHeader(block.Header())
-	bc.updateHeadBlock(block)
+	batch := bc.db.NewBatch()
+	writeHeadMarkers(batch, block)
+	if err := batch.Write(); err != nil {
+		logging.Crit("Failed to store the head markers", "err", err)
+	}
+	bc.setHead(block)
+}
+
+// writeHeadMarkers stages the head header hash, the canonical hash and the head block hash of block.
+func writeHeadMarkers(db rawdb.DatabaseWriter, block *types.Block) {
+	rawdb.WriteHeadHeaderHash(db, block.Hash())
+	rawdb.WriteCanonicalHash(db, block.Hash(), block.NumberU64())
+	rawdb.WriteHeadBlockHash(db, block.Hash())
+}
+
+// setHead moves the in-memory head to block, whose head markers are already written.
+func (bc *BlockChain) setHead(block *types.Block) {
+	bc.hc.currentHeader.Store(block.Header())
+	bc.currentBlock.Store(block)
+
+	//send to event bus
+	evt := InsertBlockEvent{Block: block}
+	go bc.eventMux.Post(evt)
 }
 
 func (bc *BlockChain) updateHeadBlock(block *types.Block) {
